@@ -231,3 +231,135 @@ MUTANTS += [
       "' rs' + str(self.rank_student) + ' l' + str(self.lecturerID) + ",
       "' rs' + str(self.rank_student if not hasattr(self, 'rank_lecturer') else self.rank_lecturer) + ' l' + str(self.lecturerID) + "),
 ]
+
+MUTANTS += [
+    # ---- C07
+    m('bf_size_update_ge', ['C07'], BF, '                if size > self.optimal_size:',
+      '                if size >= self.optimal_size and size > 0 or size > self.optimal_size:'),
+    m('bf_moregen_from_front', ['C07'], BF,
+      '        for i in range(len(profile1) - 1, -1, -1):\n            if profile1[i] < profile2[i]:',
+      '        for i in range(len(profile1)):\n            if profile1[i] < profile2[i]:'),
+    m('bf_ignores_lecturer_lq', ['C07'], BF, '''            if (self.model.lec_lower_quotas[lec_index] > 
+                lec_num_allocations[lec_index] or''', '''            if (False or'''),
+    m('bf_closure_rule', ['C07'], BF, '''                if ((self.model.proj_lower_quotas[proj_index] > 
+                    proj_num_allocations[proj_index] and
+                    not proj_num_allocations[proj_index] == 0) or''',
+      '''                if ((self.model.proj_lower_quotas[proj_index] > 
+                    proj_num_allocations[proj_index]) or'''),
+    m('bf_greedy_only_maxsize', ['C07'], BF, '''                # save greedy
+                if self.moregre(profile, self.optimal_greedyprofile):''',
+      '''                # save greedy
+                if size == self.optimal_size and self.moregre(profile, self.optimal_greedyprofile):'''),
+    m('bf_sum_abs_init_small', ['C07'], BF, '''            self.model.get_max_lec_upper_quota() * num_lecturers)''',
+      '''            self.model.get_max_lec_upper_quota() * min(num_lecturers, num_students))'''),
+    m('bf_greedyprofile_regression', ['C07'], BF,
+      'self.optimal_greedyprofile = [0] * self.model._get_max_rank()',
+      'self.optimal_greedyprofile = [0] * num_students'),
+    # ---- C08 / C12
+    m('gen_length_exclusive', ['C08'], GSH,
+      'minpreflistlength, maxpreflistlength + 1)', 'minpreflistlength, max(minpreflistlength + 1, maxpreflistlength))'),
+    m('gen_quota_remainder_last', ['C08'], GSH, '        if i < remainder:', '        if i >= n - remainder:'),
+    m('gen_with_replacement', ['C08'], GSH, 'replace=False, ', 'replace=(length_plist > 6), '),
+    m('gen_hosp_numbering', ['C08', 'C09'], GHR, '            hospital_num = x + 1', '            hospital_num = x + 1 if n2 < 7 else x'),
+    m('gen_ties_wrong_side', ['C08'], GHR, 'pref_lists_res, args.n2, args.ties2)', 'pref_lists_res, args.n2, args.ties1)'),
+    m('gen_spa_lecturer_lines_missing_uq', ['C08', 'C09'], GSPA,
+      '''str(lec_lower_quotas[z]) + ": " + str(lec_targets[z]) + ": " + 
+                str(lec_upper_quotas[z]) + ": " + prefList''',
+      '''str(lec_lower_quotas[z]) + ": " + str(lec_upper_quotas[z]) + ": " + 
+                str(lec_targets[z]) + ": " + prefList'''),
+    m('gen_stale_list_regression', ['C08'], GHR, "            string_pref_list = []\n", ""),
+    m('gen_info_block_swapped', ['C08'], GSPA,
+      "'sum_agent3_targets: ' + str(args.lecturertargets)", "'sum_agent3_targets: ' + str(args.lecturerupperquotas)"),
+    m('gen_spa_dedup_dropped', ['C12'], GSPA, '''            ranked_lecs = [False] * n3
+            for proj in pref_lists_students[st_index]:
+                lec = project_lecturers[proj - 1]
+                ranked_lecs[lec - 1] = True
+            student_lec_list = []
+            for lec_index, lec_present in enumerate(ranked_lecs):
+                if lec_present:
+                    student_lec_list.append(lec_index + 1)''',
+      '''            student_lec_list = []
+            for proj in pref_lists_students[st_index]:
+                student_lec_list.append(project_lecturers[proj - 1])'''),
+    m('gen_second_side_by_position', ['C12'], GSH,
+      '            prefs_lists_agent2[agent1_num - 1].append(i + 1)',
+      '            prefs_lists_agent2[agent1_num - 1].append(i + 1 if i < 9 else i)'),
+    m('gen_second_side_drops_last', ['C12', 'C09'], GSH,
+      '''    for prefs_list_agent2 in prefs_lists_agent2:
+        random.shuffle(prefs_list_agent2)''',
+      '''    for prefs_list_agent2 in prefs_lists_agent2:
+        random.shuffle(prefs_list_agent2)
+        if len(prefs_list_agent2) > 4:
+            prefs_list_agent2.pop()'''),
+    # ---- C14
+    m('gen_loop_regression', ['C14'], LP, '''            self.perform_optimisation(obj, Optimisation_type.MINIMISE)
+            # Stop at the first rank that is not solved to optimality.
+            if not LpStatus[self.prob.status] == self.model.OPTIMAL_PULP_STATUS:
+                return None''', '''            self.perform_optimisation(obj, Optimisation_type.MINIMISE)'''),
+    m('run_opts_no_early_exit', ['C14', 'C16'], LP, '''            if not LpStatus[self.prob.status] == self.model.OPTIMAL_PULP_STATUS:
+                return None
+
+    ''', '''            if False:
+                return None
+
+    '''),
+    m('timeout_skipped_when_optimal', ['C14'], MODEL,
+      'if self.pulp_status == self.NOTSOLVED_PULP_STATUS or total_s > self.time_limit: ',
+      'if self.pulp_status == self.NOTSOLVED_PULP_STATUS or (total_s > self.time_limit and not self.pulp_status == self.OPTIMAL_PULP_STATUS): '),
+    m('notsolved_not_timeout', ['C14'], MODEL,
+      'if self.pulp_status == self.NOTSOLVED_PULP_STATUS or total_s > self.time_limit: ',
+      'if total_s > self.time_limit: '),
+    m('status_only_infeasible_blocks', ['C14'], MODEL,
+      '        if not self.pulp_status == self.OPTIMAL_PULP_STATUS: \n            return results',
+      "        if self.pulp_status == 'Infeasible': \n            return results"),
+    # ---- C15
+    m('opt_required_row_missing', ['C15'], GOPT, '''                (args.upperquotas, 'upperquotas'),
+                (args.lecturerupperquotas, 'lecturerupperquotas'),''',
+      '''                (args.lecturerupperquotas, 'lecturerupperquotas'),'''),
+    m('opt_banned_row_missing', ['C15'], GOPT, '''                (args.twopl, 'twopl'),
+                (args.n3, 'n3'),
+                (args.ties2, 'ties2'),''', '''                (args.twopl, 'twopl'),
+                (args.n3, 'n3'),'''),
+    m('opt_bound_pmax_removed', ['C15'], GOPT, 'if args.maxpreflistlength > args.n2:', 'if args.maxpreflistlength > args.n2 + 1:'),
+    m('opt_t2_bound_inverted', ['C15'], GOPT, 'if args.ties2 < 0.0 or args.ties2 > 1.0:', 'if args.ties2 < 0.0 or args.ties2 > 1.5:'),
+    m('opt_llq_lt_removed', ['C15'], GOPT, 'args.lecturerlowerquotas > args.lecturertargets):', 'args.lecturerlowerquotas > args.lecturertargets + 1):'),
+    m('gen_makedirs_before_parse', ['C15'], 'generator/generator.py',
+      '''        self.options_parser = Instance_options_parser()
+''', '''        import os
+        if '-o' in args and not os.path.exists(args[args.index('-o') + 1]):
+            os.makedirs(args[args.index('-o') + 1])
+        self.options_parser = Instance_options_parser()
+'''),
+    m('opt_sm_regression', ['C15', 'C08'], GOPT, "            args.upperquotas = args.n1\n", ""),
+    # ---- C16
+    m('pos_range_off_by_one', ['C16'], OPT, 'if ordering < 1 or ordering > len(opts):', 'if ordering < 1 or ordering > len(opts) + 1:'),
+    m('pos_zero_allowed', ['C16'], OPT, 'if ordering < 1 or ordering > len(opts):', 'if ordering < 0 or ordering > len(opts):'),
+    m('dup_detection_removed', ['C16'], OPT, '        if not len(ordered_opts) == count:', '        if False:'),
+    m('extras_sliced_wrong', ['C16'], OPT, 'ordered_opts[arguments[0] - 1] = (opt, arguments[1:])', 'ordered_opts[arguments[0] - 1] = (opt, arguments[2:] if len(arguments) > 2 else arguments[1:])'),
+    m('stab_check_dropped', ['C16'], OPT, '''        if (extra_constraints[Extra_constraints.STAB] and 
+            not instance_options[Instance_options.TWOPL]):''', '''        if False:'''),
+    m('refusal_after_reading', ['C16'], SOLVER, '''        self.options_parser.parse(args)
+        self.model = import_model(''', '''        try:
+            self.options_parser.parse(args)
+        except SystemExit:
+            open(args[args.index('-f') + 1]).close()
+            raise
+        self.model = import_model('''),
+    # ---- C18
+    m('info_string_accumulates', ['C18'], MODEL, "        results += self.info_string + '\\n'",
+      "        self.info_string += ''\n        results += self.info_string + '\\n'\n        self.info_string += ' '"),
+    m('timestamps_at_call_time', ['C18'], MODEL, '        time_total = self.time_after_solve - self.time_start',
+      '        import datetime as _dt\n        time_total = _dt.datetime.now() - self.time_start'),
+    m('solver_object_reused', ['C18'], SOLVER, '''            self.solver = LP_Solver(
+                self.model,''', '''            self.solver = getattr(self, 'solver', None) or LP_Solver(
+                self.model,'''),
+    m('debug_mutates_values', ['C18'], MODEL, '''                    if (pair.lp_var.varValue > 0.9):
+                        lp_vars_string += '1 \'''', '''                    if (pair.lp_var.varValue > 0.9):
+                        pair.lp_var.varValue = 0
+                        lp_vars_string += '1 \''''),
+    m('second_solve_keeps_status', ['C18'], SOLVER, '            self.model.pulp_status = pulp_status',
+      "            self.model.pulp_status = pulp_status if not self.model.pulp_status else self.model.pulp_status"),
+    # ---- C09
+    m('reader_lecturer_from_index', ['C09', 'C10'], FIO, 'project_lecturers.append(int(line_split[3]))',
+      'project_lecturers.append(int(line_split[3]) if model.num_projects < 4 else min(len(project_lecturers) + 1, model.num_lecturers))'),
+]
